@@ -350,6 +350,13 @@ def run(ctx):
         _one(ctx, fam, spec, inputs, kw, None)
         # one failing node per program (error collected)
         fids = [f for f, ns in _fids(spec).items() if ns["k"] == "fn"]
+        gids = [f for f, ns in _fids(spec).items() if ns["k"] in ("ifelse", "route")]
+        if gids:
+            # a failing GATE function, alone and together with a failing node of (possibly) the same step
+            _one(ctx, fam, spec, inputs, kw, [ctx.rng.choice(gids)])
+            if fids:
+                _one(ctx, fam, spec, inputs, kw, [ctx.rng.choice(fids), ctx.rng.choice(gids)])
+            ctx.obs["gate_failure_programs"] += 1
         if fids:
             _one(ctx, fam, spec, inputs, kw, [ctx.rng.choice(fids)])
         if len(fids) >= 2:
